@@ -126,6 +126,28 @@ fn observe_dir(dir: &Path) -> Obs {
     })
 }
 
+/// Re-open read-only first, then read-write: a read-only handle must see the same durable state
+/// (it is opened first because a read-write open may recover and checkpoint the write-ahead log).
+fn observe_both(dir: &Path) -> (Obs, Option<String>) {
+    let ro = crate::util::block_on(async {
+        match SqliteStorage::new(dir, AccessMode::ReadOnly, false).await {
+            Ok(mut st) => Ok(observe(&mut st).await),
+            Err(e) => Err(format!("{e:#}")),
+        }
+    });
+    let rw = observe_dir(dir);
+    let mismatch = match ro {
+        Err(e) => Some(format!("read-only-view: the store cannot be re-opened read-only after the interruption: {e}")),
+        Ok(ro) if data(&ro) != data(&rw) || ro.ws != rw.ws => Some(format!(
+            "read-only-view: re-opened read-only the store shows {} but re-opened read-write it shows {}",
+            ro.canon(),
+            rw.canon()
+        )),
+        Ok(_) => None,
+    };
+    (rw, mismatch)
+}
+
 /// The data part (tasks, base version, unsynchronized operations) and the working set.
 fn data(o: &Obs) -> (String, Uuid, Vec<String>) {
     // timestamps of updates are wall-clock values of the run that made them: not compared;
@@ -214,10 +236,11 @@ fn abandon_sweep(rep: &Report, c: &Case) {
             });
             rep.add("evaluations", 1);
             rep.add("abandon_runs", 1);
-            let got = observe_dir(&work);
+            let (got, ro_mismatch) = observe_both(&work);
             let _ = std::fs::remove_dir_all(&work);
             let verdict = classify(&got, &c.before, &c.after);
             let problem = match (&outcome, verdict) {
+                _ if ro_mismatch.is_some() => ro_mismatch,
                 (_, Err(e)) => Some(format!("torn-state: {e}")),
                 (Some(Ok(())), Ok(s)) if s != "after" => Some(format!("not-durable: the action returned success but the re-opened store is in state '{s}'")),
                 (Some(Err(_)), Ok("after")) | (None, Ok("after")) if c.calls[k] != "commit" && !later_txn(&c.calls, k) => {
@@ -347,11 +370,12 @@ fn kill_sweep(rep: &Report, c: &Case, max_points: usize) {
         rep.add("evaluations", 1);
         rep.add("kill_runs", 1);
         rep.add("distinct_nontrivial", 1);
-        let got = std::panic::catch_unwind(|| observe_dir(&work));
+        let got = std::panic::catch_unwind(|| observe_both(&work));
         let _ = std::fs::remove_dir_all(&work);
         let problem = match got {
             Err(_) => Some("unopenable: the database cannot be re-opened after the kill".to_string()),
-            Ok(got) => match classify(&got, &c.before, &c.after) {
+            Ok((_, Some(m))) => Some(m),
+            Ok((got, None)) => match classify(&got, &c.before, &c.after) {
                 Err(e) => Some(format!("torn-state: {e}")),
                 Ok(s) if acked && s != "after" => Some(format!("not-durable: the child acknowledged the action, was killed afterwards, and the re-opened store is in state '{s}'")),
                 Ok(_) => None,
@@ -370,7 +394,7 @@ fn kill_sweep(rep: &Report, c: &Case, max_points: usize) {
 pub fn run(opts: &Opts) -> i32 {
     let rep = Report::new("C06", "fault_enumeration", opts);
     rep.set("exhaustive", true);
-    rep.set("rule", "actions {commit (create + modify + delete), undo, rebuild working set (both modes), sync against a server holding another replica's version} on two prior SQLite replicas; (1) for EVERY storage call index of the action: the call fails, or the future is dropped there (process stops), the handle is dropped and the directory re-opened; (2) a child process performs the action under strace and is SIGKILLed at the entry of every write-class syscall (pwrite64/write/fsync/fdatasync/ftruncate/unlink/rename), including those of the checkpoint on close after the action was acknowledged; oracle: re-opened state is entirely the before-state or entirely the after-state (the working-set rebuild of sync/undo is its own transaction), never after when abandoned before the commit, always after when the action had returned; distinct_nontrivial = interruption points after the first storage call / at a write syscall");
+    rep.set("rule", "actions {commit (create + modify + delete), undo, rebuild working set (both modes), sync against a server holding another replica's version} on two prior SQLite replicas; (1) for EVERY storage call index of the action: the call fails, or the future is dropped there (process stops), the handle is dropped and the directory re-opened; (2) a child process performs the action under strace and is SIGKILLed at the entry of every write-class syscall (pwrite64/write/fsync/fdatasync/ftruncate/unlink/rename), including those of the checkpoint on close after the action was acknowledged; oracle: the state seen by a read-only re-open equals the one seen by a read-write re-open, and that state is entirely the before-state or entirely the after-state (the working-set rebuild of sync/undo is its own transaction), never after when abandoned before the commit, always after when the action had returned; distinct_nontrivial = interruption points after the first storage call / at a write syscall");
     rep.assume("process-kill semantics (the kernel keeps written pages); power loss and SQLite's own recovery code are trusted");
     let q = opts.tier == Tier::Quick;
     let plan: Vec<(Prior, Action)> = if q {
